@@ -115,6 +115,13 @@ class TlcResult:
         self.wall = 0.0
         self.rejected_at = None      # trace validation: (index, event json)
 
+    def raw_lines(self, prefix):
+        """all output lines that start with the given prefix"""
+        with open(self.out_path, "r", errors="replace") as f:
+            for line in f:
+                if line.startswith(prefix):
+                    yield line.rstrip("\n")
+
     def prints(self, tag):
         """yield the JSON payloads of PrintT(<<tag, ToJson(..)>>) lines"""
         prefix = '<<"%s", ' % tag
@@ -291,7 +298,11 @@ class Reporter:
             self.known_hit[signature] += 1
             return
         self._n += 1
-        if self._n > 25:          # keep the output readable; the count is still exact
+        self._per_sig = getattr(self, "_per_sig", {})
+        self._per_sig[signature] = self._per_sig.get(signature, 0) + 1
+        # keep the output readable: at most 2 replay files per signature and 60 in total;
+        # the count of violations stays exact
+        if self._per_sig[signature] > 2 or sum(1 for x in self.new if x) >= 60:
             self.new.append(None)
             return
         os.makedirs(self.dir, exist_ok=True)
